@@ -206,18 +206,246 @@ def conc_check(ctx, st, cases, errs, cov):
                          "sample": [{"name": c["name"], "script": c["script"], "log": c["log"][:8]} for c in cases[2:3]]}
     return queries
 
+
+# ---------------------------------------------------------------- timeout scope of the token pings (drv c20scope)
+SCOPE_SHARDS = 8
+LAT_MARGIN = 200      # ms: a scripted latency closer than this to the timeout decides nothing
+BUDGET_TOL = 150      # ms: measured distance of a ping's context deadline vs. the model's
+NS = 1000000
+
+def scope_drive(ctx, args_list, seed=None):
+    def one(k_args):
+        k, args = k_args
+        scr = os.path.join(ctx.scratch, "drv-scope-%d" % k)
+        os.makedirs(scr, exist_ok=True)
+        cmd = [ctx.drv_path(), "-seed", str(seed if seed is not None else ctx.seed), "-tier", ctx.tier, "-scratch", scr, "c20scope"] + args
+        rc, out, err, dt = _run(cmd, timeout=900, env=GOENV)
+        return rc, out, err
+    with concurrent.futures.ThreadPoolExecutor(max_workers=len(args_list)) as ex:
+        res = list(ex.map(one, enumerate(args_list)))
+    cases, errs = [], []
+    for rc, out, err in res:
+        if rc != 0:
+            errs.append(err[-600:])
+        for l in out.splitlines():
+            if l.strip():
+                c = json.loads(l)
+                c["log"] = c.get("log") or []
+                c["rounds"] = c.get("rounds") or []
+                cases.append(c)
+    cases.sort(key=lambda c: c["id"])
+    return cases, errs
+
+def scope_rounds(c):
+    """the measured log, round by round: begin time, pings in the order made, completion time, health answers"""
+    out = []
+    for k, script in enumerate(c["rounds"]):
+        ev = [e for e in c["log"] if e.get("round", 0) == k]
+        pings = sorted([e for e in ev if e["op"] == "ping" and e.get("scripted")], key=lambda e: e.get("pos", 0))
+        begin = [e for e in ev if e["op"] == "begin"]
+        done = [e for e in ev if e["op"] == "round_done"]
+        qs = [e for e in ev if e["op"] == "query"]
+        t_begin = begin[0]["t"] if begin else (pings[0]["t_enter"] if pings else None)
+        t_done = max([e["t"] for e in pings], default=None) if c["loop"] else (done[0]["t"] if done else None)
+        out.append({"script": script, "pings": pings, "t_begin": t_begin, "t_done": t_done, "done": done[0] if done else None, "queries": qs})
+    return out
+
+def scope_expect_ping(p, timeout_ms):
+    """MODEL-FREE: what the check of ONE token must yield.  token_check_timeout is the time EACH token has to answer: a
+    token that answers ok within it (counted from the start of its own ping) is ok whatever the other tokens did; one that
+    answers with an error, or does not answer within it and can be interrupted, has failed; one that cannot be interrupted
+    and eventually answers ok has answered ok.  None = too close to the line to call."""
+    if p["lat_ms"] < 0:
+        return False if p["honours"] else None
+    if not p["ok"]:
+        if p["honours"] and abs(p["lat_ms"] - timeout_ms) < LAT_MARGIN:
+            return False       # error or timeout: failed either way
+        return False
+    if not p["honours"]:
+        return True
+    if p["lat_ms"] <= timeout_ms - LAT_MARGIN:
+        return True
+    if p["lat_ms"] >= timeout_ms + LAT_MARGIN:
+        return False
+    return None
+
+def scope_oracle(c):
+    """MODEL-FREE, from the property text: /health reports failure exactly when the server is disabled, when no check has
+    completed for three intervals, or when the most recent N checks have all failed; a check has failed iff some token's
+    own check failed (scope_expect_ping).  Returns (problems, judged, per-round expectations)."""
+    timeout_ms, interval_ms = c["timeout_s"] * 1000, c["interval_s"] * 1000
+    problems, expects = [], []
+    trailing = 0
+    judged = 0
+    known = True           # the expected countdown is known (no undecidable round so far)
+    last_done = 0.0
+    for k, r in enumerate(scope_rounds(c)):
+        per = [scope_expect_ping(p, timeout_ms) for p in r["script"]]
+        want_round = None if any(x is None for x in per) else all(per)
+        if r["t_done"] is None:
+            expects.append({"round": want_round, "health": []})
+            if not c.get("aborted"):
+                problems.append(("C20:scope:round-incomplete", "round %d did not end (%d of %d pings made)" % (k, len(r["pings"]), len(r["script"])), False))
+            break
+        if len(r["pings"]) != len(r["script"]):
+            # what the statement demands does not depend on whether the implementation bothered to ping every token
+            problems.append(("C20:scope:round-incomplete", "round %d made %d of %d pings" % (k, len(r["pings"]), len(r["script"])), False))
+        if want_round is None:
+            known = False
+        elif want_round:
+            trailing, known = 0, True
+        else:
+            trailing += 1
+        last_done = r["t_done"]
+        got = [not e.get("err") for e in r["pings"]]
+        cut = [i for i, (p, e) in enumerate(zip(r["script"], r["pings"])) if per[i] is True and e.get("err") in ("deadline", "canceled")]
+        describe = "round %d: %d of %d tokens pinged, in the order %s, with scripted latencies %s ms (timeout %d ms each); recorded %s%s" % (
+            k, len(r["pings"]), len(r["script"]), [e.get("token") for e in r["pings"]],
+            [("%d%s%s" % (p["lat_ms"], "" if p["ok"] else "/error", "" if p["honours"] else "/ignores-ctx")) if p["lat_ms"] >= 0 else "never" for p in r["script"]],
+            timeout_ms, [e.get("err") or "ok" for e in r["pings"]],
+            "; token #%s was cut off by its context after %s ms with %s ms of its own timeout unused" % (
+                cut[0], round(r["pings"][cut[0]]["t"] - r["pings"][cut[0]]["t_enter"]), round(timeout_ms - (r["pings"][cut[0]]["t"] - r["pings"][cut[0]]["t_enter"]))) if cut else "")
+        hexp = []
+        for q in r["queries"]:
+            if not q.get("code"):
+                problems.append(("C20:scope:health-no-answer", "GET /health got no answer after round %d" % k, True))
+                hexp.append(None)
+                continue
+            age = q["t"] - last_done
+            if c["disabled"]:
+                want = 503
+            elif not known:
+                want = None
+            elif trailing >= c["n"]:
+                want = 503
+            elif abs(age - 3 * interval_ms) < MARGIN:
+                want = None
+            else:
+                want = 503 if age > 3 * interval_ms else 200
+            hexp.append(want)
+            if want is None:
+                continue
+            judged += 1
+            if q["code"] != want:
+                problems.append(("C20:scope:health-wrong", "GET /health = %d after round %d, the statement demands %d (disabled=%s, N=%d, %d most recent checks "
+                                 "failed by the per-token outcomes, last check completed %.0f ms ago). %s" % (q["code"], k, want, c["disabled"], c["n"], trailing, age, describe), True))
+        if want_round is not None and r["done"] and r["done"].get("has_result") and bool(r["done"].get("result")) != want_round:
+            problems.append(("C20:scope:round-outcome", "healthCheck() = %s, but by the per-token outcomes the check %s. %s" % (
+                bool(r["done"].get("result")), "succeeded" if want_round else "failed", describe), False))
+        expects.append({"round": want_round, "health": hexp, "per": per})
+    return problems, judged, expects
+
+def scope_val(c):
+    """the measured case as input of the timed model: every time in ns"""
+    rounds = []
+    for r in scope_rounds(c):
+        if r["t_begin"] is None or r["t_done"] is None or len(r["pings"]) != len(r["script"]):
+            break
+        toks = [[(p["lat_ms"] * NS if p["lat_ms"] >= 0 else -1), p["ok"], p["honours"]] for p in r["script"]]
+        rounds.append([int(round(r["t_begin"] * NS)), toks, [int(round(q["t"] * NS)) for q in r["queries"]]])
+    return [-2, c["n"], c["disabled"], c["interval_s"] * 1000 * NS, c["timeout_s"], c["interval_s"], 0, rounds]
+
+def scope_check(ctx, st, cases, errs, cov):
+    for e in errs:
+        ctx.violation("C20:driver-crash-scope", "c20scope driver failed: " + e[-400:], {"stderr": e}, False)
+    reported = {}
+    judged = queries = 0
+    expects = {}
+    live = [c for c in cases if not (c.get("aborted") or "").startswith("not run")]
+    for c in live:
+        if c.get("aborted"):
+            ctx.violation("C20:scope:aborted", "case %s: %s" % (c["name"], c["aborted"]), {"scope_cases": [c], "rerun": ["c20scope", "only", str(c["id"])]}, False)
+        problems, j, expect = scope_oracle(c)
+        expects[c["id"]] = expect
+        judged += j
+        queries += sum(1 for e in c["log"] if e["op"] == "query")
+        seen_here = set()
+        for key, detail, found in sorted(problems, key=lambda p: not p[2]):
+            if key in seen_here or (key == "C20:scope:round-outcome" and "C20:scope:health-wrong" in seen_here):
+                continue
+            seen_here.add(key)
+            reported[key] = reported.get(key, 0) + 1
+            if reported[key] <= 2:
+                ctx.violation(key, "case %s (N=%d, %d tokens, token_check_timeout %d s, interval %d s, %s): %s" % (
+                    c["name"], c["n"], c["tokens"], c["timeout_s"], c["interval_s"], "real healthCheckLoop" if c["loop"] else "healthCheck per round", detail),
+                    {"scope_cases": [c], "rerun": ["c20scope", "only", str(c["id"])]}, found)
+    n_corr = 0
+    chain = None
+    orders = set()
+    if st["model_ok"] and live:
+        res = ctx.run_model([scope_val(c) for c in live])
+        for c, (mrounds, chain) in zip(live, res):
+            rs = scope_rounds(c)
+            expect = expects.get(c["id"], [])
+            bad = None
+            for k, (r, m) in enumerate(zip(rs, mrounds)):
+                completed, oks, tend, budgets, qv = m
+                orders.add((c["tokens"], tuple(e.get("token") for e in r["pings"])))
+                got = [not e.get("err") for e in r["pings"]]
+                near = k < len(expect) and any(x is None for x in expect[k].get("per", []))
+                if not completed:
+                    bad = "round %d: the model says the round never ends, the implementation finished it" % k
+                elif [bool(x) for x in oks] != got and not near:
+                    bad = "round %d: recorded outcomes: model %s, implementation %s (%s)" % (k, [bool(x) for x in oks], got, [e.get("err") or "ok" for e in r["pings"]])
+                else:
+                    for i, ((has, b), e) in enumerate(zip(budgets, r["pings"])):
+                        if bool(has) != bool(e.get("has_deadline")):
+                            bad = "round %d ping %d: context deadline present: model %s, implementation %s" % (k, i, bool(has), bool(e.get("has_deadline")))
+                        elif has and abs(b / NS - e.get("budget_ms", 0.0)) > BUDGET_TOL:
+                            bad = "round %d ping %d: the context handed to Ping expires %.0f ms after the ping starts, the model says %.0f ms" % (k, i, e.get("budget_ms", 0.0), b / NS)
+                        if bad:
+                            break
+                if bad is None and not near and abs(tend / NS - r["t_done"]) > 250 + 60 * len(r["pings"]):
+                    bad = "round %d: ends at %.0f ms, the model says %.0f ms" % (k, r["t_done"], tend / NS)
+                if bad is None:
+                    hexp = expect[k]["health"] if k < len(expect) else []
+                    for i, q in enumerate(r["queries"]):
+                        if i < len(hexp) and hexp[i] is None:
+                            continue
+                        m_code, s_code = (200 if qv[2 * i] else 503), (200 if qv[2 * i + 1] else 503)
+                        if q.get("code") and m_code != q["code"]:
+                            bad = "round %d: GET /health: model %d, implementation %d" % (k, m_code, q["code"])
+                        elif i < len(hexp) and hexp[i] is not None and s_code != hexp[i]:
+                            ctx.violation("C20:scope:oracle-vs-spec", "case %s round %d: the python oracle demands %d, the Coq specification %d" % (c["name"], k, hexp[i], s_code),
+                                          {"scope_cases": [c], "model": mrounds}, False)
+                if bad:
+                    break
+            if bad:
+                n_corr += 1
+                if n_corr <= 2:
+                    ctx.violation("C20:correspondence-scope", "case %s: %s" % (c["name"], bad),
+                                  {"scope_cases": [c], "model": mrounds, "chain": chain, "rerun": ["c20scope", "only", str(c["id"])], "broken": "correspondence C20.Run (run_timed)"}, False)
+    kinds = {}
+    for c in live:
+        for r in c["rounds"]:
+            lat = [p["lat_ms"] for p in r if p["lat_ms"] >= 0]
+            k = "%d tokens/%s/%s" % (len(r), "sum>timeout" if sum(lat) > c["timeout_s"] * 1000 else "sum<=timeout",
+                                     "some>timeout" if any(p["lat_ms"] < 0 or p["lat_ms"] > c["timeout_s"] * 1000 for p in r) else "each<timeout")
+            kinds[k] = kinds.get(k, 0) + 1
+    cov["timeout_scope"] = {"cases": len(cases), "rounds": sum(len(c["rounds"]) for c in live), "queries": queries, "judged_by_oracle": judged,
+                            "oracle_problems": reported, "model_mismatches": n_corr, "generated_ping_ctx_chain": chain,
+                            "round_classes": kinds, "distinct_token_orders_seen": len(orders),
+                            "sample": [{"name": c["name"], "rounds": c["rounds"][:2], "log": c["log"][:7]} for c in live[2:3]]}
+    return queries, sum(v for k, v in kinds.items() if "sum>timeout" in k)
+
 def run(ctx, replay=None):
     st = ctx.prepare(["C20_gen"], ["C20"], "C20.Run")
     if not st["harness_ok"]:
         return ctx.finish("proof", ctx.proof_coverage([], ["server:Server.health", "server:Server.Healthy"]), [])
     conc_cases, conc_errs = [], []
+    scope_pool = concurrent.futures.ThreadPoolExecutor(max_workers=1)
+    scope_future = None
     if replay:
         rp = json.load(open(replay))
         cases = rp.get("cases", [])
         close = None
+        if rp.get("scope_cases"):
+            scope_future = scope_pool.submit(scope_drive, ctx, [["only", str(c["id"])] for c in rp["scope_cases"]], rp.get("seed"))
         if rp.get("conc_cases"):
             conc_cases, conc_errs = conc_drive(ctx, [["only", str(c["id"])] for c in rp["conc_cases"]], seed=rp.get("seed"))
     else:
+        # the real-time cases of the timeout scope sleep most of the time: they run beside everything else
+        scope_future = scope_pool.submit(scope_drive, ctx, [[str(k), str(SCOPE_SHARDS)] for k in range(SCOPE_SHARDS)])
         conc_cases, conc_errs = conc_drive(ctx, [[str(k), str(SHARDS)] for k in range(SHARDS)])
         rc, out, err = ctx.drv(["c20"])
         if rc != 0:
@@ -254,6 +482,23 @@ def run(ctx, replay=None):
                 nontrivial.add(json.dumps([c["n"], c["disabled"], [r["outcomes"] for r in c["rounds"]]]))
             if c["initial"] != (503 if c["disabled"] else 200):
                 ctx.violation("C20:initial", "health before any check is %d" % c["initial"], {"cases": [c]})
+    if cases and not st["model_ok"]:
+        # the extracted model (and with it the Coq specification) is not available — typically because the source changed
+        # and a generated definition no longer translates.  The search for a failing input goes on with the same
+        # specification written out here: failure exactly when disabled, stale, or the last N checks all failed.
+        for c in cases:
+            trailing = 0
+            for i, r in enumerate(c["rounds"]):
+                trailing = 0 if all(o == 0 for o in r["outcomes"]) else trailing + 1
+                ok = (not c["disabled"]) and trailing < c["n"]
+                obs = [r["fresh"] == 200, r["almost"] == 200, r["stale"] == 200]
+                if obs != [ok, ok, False]:
+                    n_spec += 1
+                    if n_spec <= 2:
+                        ctx.violation("C20:spec:%s" % c["kind"], "GET /health after round %d = %s but the statement demands %s (N=%d, %d most recent checks failed)" % (i, obs, [ok, ok, False], c["n"], trailing),
+                                      {"cases": [c], "round": i, "observed": obs, "spec": [ok, ok, False]})
+            if c["initial"] != (503 if c["disabled"] else 200):
+                ctx.violation("C20:initial", "health before any check is %d" % c["initial"], {"cases": [c]})
     if close is not None:
         if not close["exited"]:
             ctx.violation("C20:close-spins", "health check loop still running 1.5 s after Close", {"close": close})
@@ -263,8 +508,14 @@ def run(ctx, replay=None):
             ctx.violation("C20:close-keeps-checking", "token checks ran after Close", {"close": close})
     conc_cov = {}
     conc_queries = conc_check(ctx, st, conc_cases, conc_errs, conc_cov)
+    scope_cases, scope_errs = scope_future.result() if scope_future else ([], [])
+    scope_pool.shutdown()
+    scope_queries, scope_nontrivial = scope_check(ctx, st, scope_cases, scope_errs, conc_cov)
     ctx.proof_verdict()
-    cov = ctx.proof_coverage(["srcgen: Healthy translated whole; healthCheck conditions/assignments; select-arm exit table of healthCheckLoop; lock/ping/state event lists of healthCheck, Healthy, serveHealth, pingOne; Close/startHealthCheck join of the loop",
+    cov = ctx.proof_coverage(["srcgen pingScope: the context chain from context.Background() to the argument of Token.Ping (creation site of every element relative to the token loop, duration, early cancel), return tree of pingOne, path condition of the notOK append",
+                              "harness cmd/drv c20scope: real healthCheck / healthCheckLoop and Handler() GET /health over fake tokens with scripted real latencies (honouring or ignoring their context); Go timers and the scheduler add up to ~100 ms of jitter, scripted latencies keep 200 ms away from every decision line",
+                              "a token's Ping is modelled by (latency | never, answer, honours-context); real tokens other than token/worker (p11token, cloud SDKs) are assumed to be one or the other",
+                              "srcgen: Healthy translated whole; healthCheck conditions/assignments; select-arm exit table of healthCheckLoop; lock/ping/state event lists of healthCheck, Healthy, serveHealth, pingOne; Close/startHealthCheck join of the loop",
                               "harness cmd/drv c20conc: real Handler() GET /health while the real healthCheck / healthCheckLoop waits in a scripted token Ping; Close during a ping",
                               "sections that hold healthMu and contain no ping are treated as instantaneous; other calls inside them (log, metrics, time.Now) are assumed not to block",
                               "harness cmd/drv c20: real Server.healthCheck / Handler() GET /health with scripted fake tokens (hook server/verif_hooks.go)",
@@ -275,10 +526,13 @@ def run(ctx, replay=None):
         kinds[k] = kinds.get(k, 0) + 1
     cov.update(conc_cov)
     nontrivial |= set("conc:" + json.dumps(c["script"]) for c in conc_cases if any(e["op"] == "query" and e.get("in_flight") for e in c["log"]))
-    cov.update({"evaluations": sum(3 * len(c["rounds"]) + 1 for c in cases) + (1 if close else 0) + conc_queries, "distinct_nontrivial": len(nontrivial),
-                "rule": "all histories of ok/failed rounds up to length 6 (quick) or 9 (thorough) for N in {1,2,3,5}; random multi-token histories to length 40 with disable flag; 3 queries per round (fresh, just inside, just outside 3 intervals); non-trivial = distinct history with >= N rounds and at least one failure; concurrent: 15 fixed scenarios (slow token first/middle/last, real-time and back-dated staleness, timeout, disabled, no tokens, Close during a ping) + 24 (quick) / 200 (thorough) random scripts, every query through the real Handler with a 1500 ms answer deadline; non-trivial = script with a query while a ping is in flight",
+    nontrivial |= set("scope:" + json.dumps(r) for c in scope_cases for r in c["rounds"]
+                      if sum(p["lat_ms"] for p in r if p["lat_ms"] >= 0) > c["timeout_s"] * 1000)
+    cov.update({"evaluations": sum(3 * len(c["rounds"]) + 1 for c in cases) + (1 if close else 0) + conc_queries + scope_queries, "distinct_nontrivial": len(nontrivial),
+                "rule": "all histories of ok/failed rounds up to length 6 (quick) or 9 (thorough) for N in {1,2,3,5}; random multi-token histories to length 40 with disable flag; 3 queries per round (fresh, just inside, just outside 3 intervals); non-trivial = distinct history with >= N rounds and at least one failure; concurrent: 15 fixed scenarios (slow token first/middle/last, real-time and back-dated staleness, timeout, disabled, no tokens, Close during a ping) + 24 (quick) / 200 (thorough) random scripts, every query through the real Handler with a 1500 ms answer deadline; non-trivial = script with a query while a ping is in flight; timeout scope: 15 fixed real-time cases (2-5 tokens each below and together above the timeout in every order for 2 and 3 tokens, rotations for 4 and 5, five tokens summing to 3.6 timeouts; one token above the timeout in every position; tokens ignoring the context; slow errors; a token that never answers; one token; disabled; two cases through the real loop) + 4 (quick) / 40 (thorough) random cases, GET /health after every round; non-trivial = distinct round whose latencies sum above the timeout",
                 "samples": [{"n": c["n"], "rounds": c["rounds"][:4]} for c in cases[40:42]],
                 "exhaustive": True, "close_observation": close, "spec_mismatches": n_spec, "model_mismatches": n_corr,
                 "input_distribution": dict(sorted(kinds.items())[:40])})
     return ctx.finish("proof", cov, ["time.Since granularity: staleness probed at 3 intervals +/- 400 ms", "Go scheduler/timers not modelled: the schedule of the concurrent model is arbitrary, which covers them",
-                                     "queries whose measured age is within 200 ms of three intervals are not judged"])
+                                     "queries whose measured age is within 200 ms of three intervals are not judged",
+                                     "token_check_timeout is the time EACH token has to answer, counted from the start of its own ping (doc/relic.yml: 'fail a ping if it is stuck for N seconds'); a token that cannot be interrupted and answers ok late counts as ok (pingOne's view, not contradicted by the statement)"])
